@@ -48,6 +48,17 @@ func Functions() map[string]schema.FunctionSignature {
 	}
 }
 
+// ChildFunctions are the functions of the child path: same names, partly other
+// signatures (each path has its own function set).
+func ChildFunctions() map[string]schema.FunctionSignature {
+	fs := Functions()
+	fs["upper"] = schema.FunctionSignature{Description: "child upper with a locale", ReturnType: cty.String, Params: []function.Parameter{{Name: "text", Type: cty.String, Description: "child input"}, {Name: "locale", Type: cty.String}}}
+	fs["max"] = schema.FunctionSignature{Description: "child max of two", ReturnType: cty.Number, Params: []function.Parameter{{Name: "a", Type: cty.Number}, {Name: "b", Type: cty.Number}}}
+	fs["timestamp"] = schema.FunctionSignature{Description: "child time in a zone", ReturnType: cty.String, Params: []function.Parameter{{Name: "zone", Type: cty.String}}}
+	delete(fs, "substr")
+	return fs
+}
+
 func lifecycleBlock() *schema.BlockSchema {
 	return &schema.BlockSchema{
 		Description: md("lifecycle-block-desc"),
@@ -116,6 +127,31 @@ func awsInstanceBody() *schema.BodySchema {
 						"network_id":   {IsOptional: true, Constraint: schema.AnyExpression{OfType: cty.String}, Description: md("network_id-desc")},
 						"addresses":    {IsOptional: true, Constraint: schema.AnyExpression{OfType: cty.List(cty.String)}, Description: md("addresses-desc")},
 						"labels":       {IsOptional: true, Constraint: schema.AnyExpression{OfType: cty.Map(cty.String)}, Description: md("ni-labels-desc")},
+					},
+					Blocks: map[string]*schema.BlockSchema{
+						// second nesting level with extensions of its own: DynamicBlocks has
+						// to reach it through two propagation steps
+						"access_config": {
+							Type:        schema.BlockTypeList,
+							Description: md("access_config-desc"),
+							Body: &schema.BodySchema{
+								Extensions: &schema.BodyExtensions{SelfRefs: true},
+								Attributes: map[string]*schema.AttributeSchema{
+									"nat_ip": {IsOptional: true, Constraint: schema.AnyExpression{OfType: cty.String}, Description: md("nat_ip-desc")},
+								},
+								Blocks: map[string]*schema.BlockSchema{
+									"rule": {
+										Type:        schema.BlockTypeList,
+										Description: md("rule-desc"),
+										Body: &schema.BodySchema{
+											Attributes: map[string]*schema.AttributeSchema{
+												"port": {IsRequired: true, Constraint: schema.AnyExpression{OfType: cty.Number}, Description: md("rule-port-desc")},
+											},
+										},
+									},
+								},
+							},
+						},
 					},
 				},
 			},
@@ -329,6 +365,35 @@ func dataBlock() *schema.BlockSchema {
 							Attributes: map[string]*schema.AttributeSchema{
 								"name":   {IsRequired: true, Constraint: schema.AnyExpression{OfType: cty.String}, Description: md("filter-name-desc")},
 								"values": {IsRequired: true, Constraint: schema.AnyExpression{OfType: cty.List(cty.String)}, Description: md("filter-values-desc")},
+							},
+						},
+					},
+					"exclude": {
+						Type:        schema.BlockTypeSet,
+						Description: md("exclude-desc"),
+						Body: &schema.BodySchema{
+							Attributes: map[string]*schema.AttributeSchema{
+								"name": {IsRequired: true, Constraint: schema.AnyExpression{OfType: cty.String}, Description: md("exclude-name-desc")},
+							},
+						},
+					},
+					"lookup": {
+						Type:        schema.BlockTypeObject,
+						Description: md("lookup-desc"),
+						MaxItems:    1,
+						Body: &schema.BodySchema{
+							Attributes: map[string]*schema.AttributeSchema{
+								"region": {IsOptional: true, Constraint: schema.AnyExpression{OfType: cty.String}, Description: md("lookup-region-desc")},
+							},
+						},
+					},
+					"retry": {
+						Type:        schema.BlockTypeObject,
+						Description: md("retry-desc"),
+						MaxItems:    1,
+						Body: &schema.BodySchema{
+							Attributes: map[string]*schema.AttributeSchema{
+								"attempts": {IsOptional: true, Constraint: schema.AnyExpression{OfType: cty.Number}, Description: md("retry-attempts-desc")},
 							},
 						},
 					},
@@ -697,7 +762,7 @@ func Make(name string) (*core.Workspace, error) {
 		ws.Order = append(ws.Order, TwinPath)
 	}
 	if c.Child != nil {
-		child := &core.PathSpec{Schema: ChildSchema(), Files: map[string]string{}, Functions: Functions()}
+		child := &core.PathSpec{Schema: ChildSchema(), Files: map[string]string{}, Functions: ChildFunctions()}
 		for f, src := range c.Child {
 			child.Files[f] = src
 		}
